@@ -24,6 +24,8 @@ pub use crate::module::custom::{
 };
 pub use crate::module::data::{Data, DataId, DataKind, ModuleData};
 pub use crate::module::debug::ModuleDebugData;
+#[cfg(walrus_verif)]
+pub use crate::module::debug::verif_hooks;
 pub use crate::module::elements::{Element, ElementId, ModuleElements};
 pub use crate::module::elements::{ElementItems, ElementKind};
 pub use crate::module::exports::{Export, ExportId, ExportItem, ModuleExports};
